@@ -544,6 +544,10 @@ class ExprMixin:
                 return z3.Bool(fresh_name("opaque_is_none"))
             return z3.Bool(fresh_name("opaque_eq"))
         if not is_ and isinstance(a, VRef) and isinstance(b, VRef):
+            # abstract classes that stand for real classes with a structural __eq__ (Shape, type objects): equal objects
+            # need not be identical - `==` is True on identical references and unknown otherwise
+            if any(getattr(self.classes.get(v.cls), "structural_eq", False) for v in (a, b) if v.cls):
+                return z3.Or(a.z == b.z, z3.Bool(fresh_name("struct_eq")))
             for v in (a, b):
                 if v.cls and v.cls in self.classes and self.find_method(v.cls, "__eq__"):
                     raise Unsupported(f"== on {v.cls} with user __eq__")
